@@ -256,6 +256,17 @@ Theorem C04_exemplar_eligibility_orig_refuted :
 Proof. exact gauge_exemplar_orig_refuted. Qed.
 Print Assumptions C04_exemplar_eligibility_orig_refuted.
 
+(* ... and compared `metric.type in ('gaugehistogram')`, a substring test on a string: a GAUGE family ('gauge' is a substring)
+   with a sample named *_bucket was written with its exemplar too.  Repaired source (fixes/C04-exemplar-type-equality.diff):
+   equality of types.  Found by the correspondence/direct oracle once the generator produced family names ending in _bucket. *)
+Theorem C04_exemplar_type_substring_orig_refuted :
+  is_valid_exemplar_metric_orig (s2l "gauge") (s2l "g") gauge_bucket_sample = true /\
+  toy_text true true gauge_bucket_text = Err ValueError /\
+  is_valid_exemplar_metric (s2l "gauge") (s2l "g") gauge_bucket_sample = false /\
+  om_render true [gauge_bucket_family] = Err ValueError.
+Proof. exact exemplar_type_substring_orig_refuted. Qed.
+Print Assumptions C04_exemplar_type_substring_orig_refuted.
+
 (* L5, counters: one COUNTER family - any non-empty name, any help text, optional unit, samples name_total (value a
    number that is not NaN and not negative, as the validation rules demand; optional EXEMPLAR with arbitrary label names
    and values, value and optional timestamp: ex_reads as in L4) and name_created, arbitrary label names and values,
